@@ -319,6 +319,7 @@ func runSchedules(r *ev.Run) {
 				x.SendText(v.x)
 			}
 			s := vsched.New(c, 3000, "Clients", "Authenticated", "Username", "EventsList")
+			s.SpinFree = 16 // the loops on these paths parse and wrap, they do not poll (vsched.Sched.SpinFree)
 			s.Spawn("handshake-X", func() { w.ts.T.VerifHandleRequest("X") })
 			s.Spawn("listener", func() {
 				w.ts.Register(0xb002, 2)
